@@ -226,6 +226,41 @@ def case(W, cfg):
             W.require("misc:" + name, False, "accepted")
         except Exception:
             W.require("misc:" + name, True)
+    # other spellings of the same table: reverse flags as numpy booleans / 0-1 integers, links as lists.  A table is
+    # accepted in one spelling iff it is accepted in the other (differential, concrete; the symbolic cases decide which)
+    ds2 = xr.Dataset(coords={"face": [0, 1], "xc": [0.5, 1.5], "yc": [0.5, 1.5]})
+
+    def accepted(tb):
+        try:
+            with warnings.catch_warnings():
+                warnings.simplefilter("ignore")
+                xgcm.Grid(ds2, coords={"X": {"center": "xc"}, "Y": {"center": "yc"}}, periodic=False, face_connections={"face": tb}, autoparse_metadata=False)
+            return True
+        except Exception:
+            return False
+
+    def respell(tb, flag, seq):
+        return {f: {a: tuple(None if l is None else seq([l[0], l[1], flag(l[2])]) for l in pair) for a, pair in d.items()} for f, d in tb.items()}
+    tables = []
+    for base in base_tables_2x2():
+        tables.append(base)
+        # one-sided variants: drop each link in turn, flip each reverse flag in turn
+        for f, d in base.items():
+            for a, pair in d.items():
+                for side in (0, 1):
+                    if pair[side] is None:
+                        continue
+                    for edit in ("drop", "flip"):
+                        t2 = {g: {b: list(p) for b, p in dd.items()} for g, dd in base.items()}
+                        t2[f][a][side] = None if edit == "drop" else (pair[side][0], pair[side][1], not pair[side][2])
+                        tables.append({g: {b: tuple(p) for b, p in dd.items()} for g, dd in t2.items()})
+    n_acc = 0
+    for tb in tables:
+        ref = accepted(tb)
+        n_acc += int(ref)
+        for nm_, flag, seq in (("numpy-bool-flags", np.bool_, tuple), ("int-flags", int, tuple), ("list-links", bool, list)):
+            W.require("misc:spelling:" + nm_, accepted(respell(tb, flag, seq)) == ref, "table %s: %s with Python bools / tuples, the opposite as %s" % (tb, "accepted" if ref else "refused", nm_))
+    W.require("misc:spelling-corpus-has-both-outcomes", 0 < n_acc < len(tables), "%d of %d accepted" % (n_acc, len(tables)))
     try:
         with warnings.catch_warnings():
             warnings.simplefilter("ignore")
